@@ -870,4 +870,134 @@ theorem wsum_zero_of_cnt_zero (F : Nat → Nat → Nat → Rat) (cs : List Contr
   rw [hnil]
   rfl
 
+/-! ### conjugation symmetry: from the half mesh to the full mesh -/
+
+theorem negIdx_lt (n i : Nat) (hn : 1 ≤ n) : negIdx n i < n := Nat.mod_lt _ (by omega)
+
+theorem negIdx_pos (n i : Nat) (h0 : 0 < i) (hi : i < n) : negIdx n i = n - i := by
+  unfold negIdx; exact Nat.mod_eq_of_lt (by omega)
+
+theorem negIdx_zero (n : Nat) : negIdx n 0 = 0 := by simp [negIdx]
+
+theorem negIdx_invol (n i : Nat) (hi : i < n) : negIdx n (negIdx n i) = i := by
+  rcases Nat.eq_zero_or_pos i with rfl | h0
+  · simp [negIdx_zero]
+  · rw [negIdx_pos n i h0 hi, negIdx_pos n (n - i) (by omega) (by omega)]; omega
+
+theorem natAbs_fold_sub (n i : Nat) (h0 : 0 < i) (hi : i < n) :
+    (fold n (n - i)).natAbs = (fold n i).natAbs := by
+  have key : fold n (n - i) = - fold n i ∨ fold n (n - i) = fold n i := by
+    unfold fold
+    split <;> split <;> omega
+  rcases key with h | h
+  · rw [h, Int.natAbs_neg]
+  · rw [h]
+
+theorem natAbs_fold_negIdx (n i : Nat) (hi : i < n) : (fold n (negIdx n i)).natAbs = (fold n i).natAbs := by
+  rcases Nat.eq_zero_or_pos i with rfl | h0
+  · rw [negIdx_zero]
+  · rw [negIdx_pos n i h0 hi]; exact natAbs_fold_sub n i h0 hi
+
+theorem natAbs_fold_half (n k : Nat) (hk : k < n / 2 + 1) (hn : 1 ≤ n) : (fold n k).natAbs = k := by
+  unfold fold
+  split
+  · simp
+  · have : ((k : Int) - (n : Int)) = -((k : Nat) : Int) := by omega
+    rw [this, Int.natAbs_neg, Int.natAbs_natCast]
+
+theorem clsKmu_congr (ek em : List Rat) {a a' b b' c c' : Int} (ha : a.natAbs = a'.natAbs)
+    (hb : b.natAbs = b'.natAbs) (hc : c.natAbs = c'.natAbs) : clsKmu ek em a b c = clsKmu ek em a' b' c' := by
+  unfold clsKmu sq
+  rw [ha, hb, hc]
+
+theorem sum_negIdx {M : Type} [AddCommMonoid M] (n : Nat) (hn : 1 ≤ n) (f : Nat → M) :
+    ∑ i ∈ Finset.range n, f (negIdx n i) = ∑ i ∈ Finset.range n, f i := by
+  apply Finset.sum_nbij' (negIdx n) (negIdx n)
+  · intro a _; exact Finset.mem_range.mpr (negIdx_lt n a hn)
+  · intro a _; exact Finset.mem_range.mpr (negIdx_lt n a hn)
+  · intro a ha; exact negIdx_invol n a (Finset.mem_range.mp ha)
+  · intro a ha; exact negIdx_invol n a (Finset.mem_range.mp ha)
+  · intro a _; rfl
+
+/-- Hermitian re-indexing on mesh indices: a plane sum `S` with `S (n - k) = S k` summed over the full
+axis is the weighted sum over the half axis -/
+theorem hermitian_index {R : Type} [CommSemiring R] (n : Nat) (hn : 1 ≤ n) (S : Nat → R)
+    (hS : ∀ k, 0 < k → k < n → S (n - k) = S k) :
+    ∑ l ∈ Finset.range n, S l = ∑ k ∈ Finset.range (n / 2 + 1), ((hw n k : Nat) : R) * S k := by
+  rw [← list_sum_range (fun k => ((hw n k : Nat) : R) * S k), hermitian_sum n hn S, ← fold_eq_fftfreq,
+    List.map_map, list_sum_range]
+  apply Finset.sum_congr rfl
+  intro i hi
+  rw [Finset.mem_range] at hi
+  simp only [Function.comp]
+  unfold fold
+  split
+  · simp
+  · rename_i h
+    have : ((i : Int) - (n : Int)) = -((n - i : Nat) : Int) := by omega
+    rw [this, Int.natAbs_neg, Int.natAbs_natCast]
+    exact (hS i (by omega) hi).symm
+
+/-- **weighted sums: half mesh with Hermitian weights = full mesh**, for a conjugation-symmetric
+per-mode quantity `Ff` given on the full mesh by mesh indices -/
+theorem seq_wsum (n : Nat) (hn : 1 ≤ n) (ek em : List Rat) (Ff : Nat → Nat → Nat → Rat)
+    (hsym : ∀ i j l, i < n → j < n → l < n → Ff (negIdx n i) (negIdx n j) (negIdx n l) = Ff i j l)
+    (b m : Nat) :
+    ((List.range n).map (fun i => wsum Ff (rowSpec n ek em i) b m)).sum =
+      fullSumRat n (fun i j l =>
+        if clsKmu ek em (fold n i) (fold n j) (fold n l) = some (b, m) then Ff i j l else 0) := by
+  -- left side: triple sum over the half mesh
+  have hL : ∀ i, wsum Ff (rowSpec n ek em i) b m =
+      ∑ j ∈ Finset.range n, ∑ k ∈ Finset.range (n / 2 + 1),
+        (if clsKmu ek em (fold n i) (fold n j) (k : Int) = some (b, m) then ((hw n k : Nat) : Rat) * Ff i j k else 0) := by
+    intro i
+    rw [wsum_eq_acc, rowSpec, acc_flatten, List.map_map, list_sum_range]
+    apply Finset.sum_congr rfl
+    intro j _
+    simp only [Function.comp_def, colSpec, acc_filterMap, cell_kzSpec, list_sum_range]
+  simp only [hL, fullSumRat, ratSum_eq, list_sum_range]
+  -- plane sums
+  set S : Nat → Rat := fun l => ∑ i ∈ Finset.range n, ∑ j ∈ Finset.range n,
+    (if clsKmu ek em (fold n i) (fold n j) (fold n l) = some (b, m) then Ff i j l else 0) with hSdef
+  have hS : ∀ k, 0 < k → k < n → S (n - k) = S k := by
+    intro k h0 hk
+    simp only [hSdef]
+    rw [← sum_negIdx n hn (fun i => ∑ j ∈ Finset.range n,
+      (if clsKmu ek em (fold n i) (fold n j) (fold n k) = some (b, m) then Ff i j k else 0))]
+    apply Finset.sum_congr rfl
+    intro i hi
+    rw [← sum_negIdx n hn (fun j =>
+      (if clsKmu ek em (fold n (negIdx n i)) (fold n j) (fold n k) = some (b, m) then Ff (negIdx n i) j k else 0))]
+    apply Finset.sum_congr rfl
+    intro j hj
+    rw [Finset.mem_range] at hi hj
+    have hF : Ff (negIdx n i) (negIdx n j) k = Ff i j (n - k) := by
+      have := hsym i j (n - k) hi hj (by omega)
+      rwa [negIdx_pos n (n - k) (by omega) (by omega), show n - (n - k) = k by omega] at this
+    rw [hF, clsKmu_congr ek em (natAbs_fold_negIdx n i hi).symm (natAbs_fold_negIdx n j hj).symm
+      (natAbs_fold_sub n k h0 hk)]
+  have hR : (∑ i ∈ Finset.range n, ∑ j ∈ Finset.range n, ∑ l ∈ Finset.range n,
+      (if clsKmu ek em (fold n i) (fold n j) (fold n l) = some (b, m) then Ff i j l else 0)) =
+      ∑ l ∈ Finset.range n, S l := by
+    simp only [hSdef]
+    rw [Finset.sum_comm]
+    apply Finset.sum_congr rfl
+    intro i _
+    rw [Finset.sum_comm]
+  rw [hR, hermitian_index n hn S hS]
+  simp only [hSdef, Finset.mul_sum]
+  rw [Finset.sum_comm]
+  apply Finset.sum_congr rfl
+  intro i _
+  rw [Finset.sum_comm]
+  apply Finset.sum_congr rfl
+  intro j _
+  apply Finset.sum_congr rfl
+  intro k hk
+  rw [Finset.mem_range] at hk
+  have hcls : clsKmu ek em (fold n i) (fold n j) (fold n k) = clsKmu ek em (fold n i) (fold n j) (k : Int) :=
+    clsKmu_congr ek em rfl rfl (by rw [natAbs_fold_half n k hk hn, Int.natAbs_natCast])
+  rw [hcls]
+  split <;> simp
+
 end AbacusVerif.Binning
